@@ -3,6 +3,7 @@ import OH.Proofs.SynRule9
 import OH.Model.PrintableOut
 import OH.Proofs.EvalComments2
 import OH.Proofs.SynClosure5
+import OH.Proofs.NormPrintable
 /-
 C06 — printed expressions parse back to an equivalent expression.
 Property theorems only.  The printers are OH/Model/Print.lean (one definition per `Display`), the
@@ -129,6 +130,32 @@ theorem C06_every_parsed_expression_reparses_equivalent (s : String) (e : Expr) 
 theorem C06_print_never_panics_on_parsed (s : String) (e : Expr) (h : Parser.parse s = .ok e) :
     Print.printPanics e = false :=
   OH.Proofs.SynClosure.print_never_panics_on_parsed s e h
+
+/-! ### normalized expressions -/
+
+/-- **C06 for normal forms**: for every string `s` that parses to `e`, `normalize e` succeeds, its
+printed form parses — to the normal form with the comments of each rule joined, a `Normal` first
+operator (`Display` does not write it; the evaluator does not look at it) and the rule `closed` for
+the empty normal form — and whatever it parses to evaluates identically to the normal form in every
+context, on every day, at every minute -/
+theorem C06_every_normal_form_reparses_equivalent (s : String) (e : Expr) (h : Parser.parse s = .ok e) :
+    ∃ n, OH.Model.Norm.normalizeM e = .ok n ∧
+      Parser.parseChars (Print.expr n) = .ok (joinComments n) ∧
+      ∀ (ctx : Ctx) (d : Int),
+        match scheduleAt ctx n d, scheduleAt ctx (joinComments n) d with
+        | .ok sc, .ok sc' => ∀ m, OH.Spec.Schedule.dayState sc m = OH.Spec.Schedule.dayState sc' m
+        | .error q, .error q' => q = q'
+        | _, _ => False := by
+  have hp := C06_parsed_is_printable s e h
+  obtain ⟨n, hn, -, hr⟩ := OH.Proofs.NormPrintable.normal_form_printable e hp
+  exact ⟨n, hn, hr, fun ctx d =>
+    OH.Proofs.NormPrintable.normal_form_reparse_evaluates_identically e n hp hn (joinComments n) hr ctx d⟩
+
+/-- the rules of the normal form of a printable expression are within what the parser can build -/
+theorem C06_normal_form_rules_printable (e n : Expr) (he : OH.Model.Printable.printableOut e = true)
+    (h : OH.Model.Norm.normalizeM e = .ok n) : ∀ r ∈ n, OH.Model.Printable.okRule r = true :=
+  OH.Proofs.NormPrintable.normalize_okRule e n
+    (OH.Proofs.NormPrintable.all_okRule_of_printableOut e he) h
 
 /-- non-vacuity: a rule with years, a dated range with offsets, a week, weekdays with positions and
 an offset, a holiday, two time spans (an event with an offset, an open end) and two comments is in the
